@@ -161,7 +161,8 @@ class Pool:
 
 
 class Sdk:
-    def __init__(self, model_text: str, name: Optional[str] = None, generate: bool = True) -> None:
+    def __init__(self, model_text: str, name: Optional[str] = None, generate: bool = True,
+                 snippets_from: Optional[pathlib.Path] = None) -> None:
         _COUNTER[0] += 1
         self.pkg = name or f"sdk{_COUNTER[0]}"
         self.text = model_text
@@ -178,6 +179,10 @@ class Sdk:
         model_path = root / f"{self.pkg}_meta_model.py"
         model_path.write_text(model_text, encoding="utf-8")
         snippets = root / f"{self.pkg}_snippets"
+        if snippets_from is not None:
+            # implementation-specific snippets which the model needs (the repository's own, for its own models)
+            import shutil
+            shutil.copytree(snippets_from, snippets, dirs_exist_ok=True)
         snippets.mkdir(exist_ok=True)
         (snippets / "qualified_module_name.txt").write_text(self.pkg, encoding="utf-8")
         out = root / "out"
